@@ -46,6 +46,23 @@ RULE = ("Hypothesis draws d in {2,3,50,300,1000(,3000)} or 2..40, cycled mode-si
         "teneva.mul(2.**s, Y) as the producer (whole factor in core 0); pairs independent / one core perturbed / Y1 = (1+2^-q) Y2 / equal "
         "/ sharing core objects; a twelfth with an exactly zero core in Y1; each result against the unbounded-exponent reference and "
         "against the same call on the pair without the factors. "
+        "Sub-check subnormal: ONE or TWO cores whose LARGEST entry is a subnormal double (core of size 2^t0, |t0| <= 6, times 2^-s, "
+        "1018 <= s <= 1066: max modulus 2^-1074..2^-1012, a sixth of them still normal; entries keep 52..0 bits), produced by ldexp on a "
+        "core (first / last / second / last but one / middle / drawn; one or both operands, same or other position, two cores of one "
+        "operand), by teneva.mul(number, Y) / teneva.mul(Y, number) (whole factor in core 0) or by teneva.const(n, number) (last core), "
+        "number = +-{1, 1.25, 1.7, 1.9999999} 2^-s; every other core ordinary (any total, or all O(1)), three eighths with one more core "
+        "of 2^512..1000 in one or both operands (tiny balanced by huge), a twelfth with an exactly zero core; the tensor really handed "
+        "over is the reference and its mantissa tensor (those cores scaled back up by ldexp, exact) the ordinary counterpart; "
+        "core_stab itself (those cores, their scaled-up copies and an ordinary core; p0 omitted / 0 / +-30000; thr above and below the "
+        "maximum), mul_scalar (both orders) / norm (both tensors) / accuracy (both orders) / orthogonalize (every pivot for d <= 4, "
+        "else first / last / middle / drawn / at a subnormal core) / truncate with use_stab. "
+        "Sub-check orth_false: truncate(Y, e, [r], orth=False, use_stab=True) on a tensor orthogonalised to the last core, total scale 2^L, "
+        "L in +-40 / +-100 / +-300 / +-450 / -450..450 / -60..60: family spectrum (left-orthogonal cores of a superdiagonal tensor in "
+        "rotated bases, d in 2..12, every unfolding has the singular values 2^L m_a, 1-3 strong ones in [.5, 1] and 0-2 weak ones in "
+        "w [.5, 1], w = 1e-2..1e-5, optional random orthogonal gauge; e = 4 sqrt(R) w 2^L between the two groups / w 2^L / 16 below / "
+        "4 sqrt(R) 2^L above everything) and family generic (the truncate tensors of this module with total scale 2^L in a profile whose "
+        "partial products are representable, orthogonalised by teneva.orthogonalize(Y, d-1), e = c ||Y||, c in 1e-6..0.3); r omitted / "
+        "1e12 / 3 / 2 / 1; against the same call without use_stab and against the input. "
         "Non-trivial = the plain (use_stab=False) computation is not finite-and-normal while the reference value is non-zero; "
         "distinct by SHA-1 of the case.")
 TOLERANCES = ("scalar product: |v 2^p / ref - 1| <= 8 eps sum_k (r1 s1 + n + 2) rho_k, rho_k = ||T_k^abs |v_k|||_2 ||W_k+1||_2 / |<Y1,Y2>| "
@@ -73,11 +90,25 @@ TOLERANCES = ("scalar product: |v 2^p / ref - 1| <= 8 eps sum_k (r1 s1 + n + 2) 
               "asserted whenever the scaling of the inputs was exact (no entry of a scaled core subnormal); accuracy with equal total "
               "factors in both operands = accuracy of the ordinary pair, bit-identical or within 8 eps (saturation values equal, or the other "
               "value within 2^+-499 of the threshold); stabilised = plain only if additionally every entry-wise product of one step is "
-              "representable (log2 of max|G1| max|G2| within +-970)")
+              "representable (log2 of max|G1| max|G2| within +-970); "
+              "subnormal: the value bounds and shift relations of extreme_cores / one_core / extreme_pairs with `exact` always true (the "
+              "ordinary tensor is derived from the tested one by scaling up); core_stab(G, p0) = (Q, p): Q finite float64 of the shape of G, p "
+              "a Python int, p - p0 in {f, f+1} for f = floor(log2 max|G|) from frexp (fl(log2) may round up to the next integer), max|Q| in "
+              "[1 - 2^-40, 2 (1 + 2^-40)] (|log2 max| <= 1075 is rounded to 2^-42), ldexp(Q, p - p0) == G bit for bit (a quotient by a power of "
+              "two is exact unless the quotient is subnormal, and every non-zero entry of a generated core lies within 2^-1000 of its "
+              "maximum), zero core -> (zeros, p0), thr = 2 max -> (G, p0) unchanged, thr = max / 2 -> the default split; shift: "
+              "Q bit-identical and p moved by s unless the maximum is within 1e-11 of a power of two (then the same denoted core); the plain "
+              "truncate is not compared when a core has a subnormal maximum (its R factor has as few bits); "
+              "orth_false: same ranks as the plain call (e is an absolute threshold for both, placed a factor >= 3 away from every tail norm in "
+              "family spectrum; in family generic c >= 1e-6 is far above the eigh floor 1e-8 of the rank decision and a tail norm of random "
+              "data within rounding of c ||Y|| has probability ~1e-10), the two results bit-identical or distance^2 <= 2x rounding bound + "
+              "64 (d-1) R eps, and distance^2 to the input <= (d-1) (e/||Y||)^2 (1+1e-3)^2 + 16 (d-1) R eps + rounding bound when r does "
+              "not cap the ranks (each of the d-1 steps cuts a tail of Frobenius norm <= e from a tensor in orthogonal form)")
 ASSUMPTIONS = ["d >= 2",
                "every entry of every core is a finite double; a scaled core has entries between 2^-1030 and 2^1010 (|s| <= 1000 on bulk "
-               "values of 2^-28..2^9; beyond 2^+-1022 core_stab cannot represent 2.**p), entries that become subnormal make the "
-               "bit-for-bit shift relation inapplicable (the scaling of the input was not exact) but not the value oracles",
+               "values of 2^-28..2^9; above 2^1023 core_stab cannot represent 2.**p), entries that become subnormal make the "
+               "bit-for-bit shift relation inapplicable (the scaling of the input was not exact) but not the value oracles; cores whose "
+               "largest entry is subnormal (down to 2^-1074) are the sub-check subnormal, where the tensor after the loss is the reference",
                "generator choice, not a domain restriction of mul_scalar / norm / accuracy (since repo 6e41839 both cores of a step are "
                "rescaled before they are multiplied): the bulk families scalar / norm / accuracy / zero_terms / shared / tiny keep per-core "
                "scales s_k in [-480, 480] (`opposed` operands: entries up to 2^+-900 with pair sums in [-960, 960]) - there the "
@@ -97,6 +128,13 @@ ASSUMPTIONS = ["d >= 2",
                "pair may be exactly orthogonal",
                "the plain (use_stab=False) result is compared only when every partial product and every entry-wise product G1 * G2 of a "
                "step is representable",
+               "sub-check subnormal, truncate with d = 2: only ONE of the two cores is subnormal - the result of truncate carries the factor "
+               "2^(p/d) in every core, for d = 2 and both cores below 2^-1022 that even share is itself subnormal and NO pair of result cores "
+               "of that form can hold the tensor to the requested accuracy (representability of the output, reported as an observation); "
+               "for d >= 3 and in every other routine two subnormal cores are generated",
+               "sub-check orth_false: the caller's part of the contract is met by construction - the tensor is orthogonalised to the last "
+               "core; the plain call is representable: |L| <= 450 plus the growth of at most 50 random cores keeps ||Y||^2 and e^2 normal "
+               "numbers (checked on the data: ||Y|| within 2^+-500, else the case is skipped with a label)",
                "shared core objects: all repeated cores of one chain have the same shape (r, n, r) and one power-of-two scale per object"]
 
 LO, HI = -480, 480            # per-core log2 scale window of the bulk families (generator choice, see ASSUMPTIONS)
@@ -319,6 +357,15 @@ def mant_ok(v):
 
 def normal_finite(x):
     return math.isfinite(x) and 1e-290 < abs(x) < 1e290
+
+
+TINY_NORMAL = 2.0 ** -1022    # the smallest normal double
+
+
+def subnormal_core(G):
+    """The largest entry of the (non-zero) core is a subnormal number: floor(log2 max|G|) <= -1023."""
+    m = float(np.max(np.abs(G)))
+    return 0.0 < m < TINY_NORMAL
 
 
 def same_value(v1, p1, v2, p2):
@@ -920,7 +967,9 @@ def run_truncate(ctx, Y, e, info=None):
     ctx.nontrivial(nt)
     # representable: the stabilised and the plain rounding denote the same tensor up to 2e
     Zp = None
-    if normal_finite(plain) and plain > 0 and -900 < gy.lo_path and gy.hi_path < 900 and abs(gy.log2()) < 600:
+    # (a core whose largest entry is a subnormal number has entries of a few bits only: the plain sweep multiplies its R factor,
+    # of as few bits, into the neighbour - the plain result is not comparable although every partial product is representable)
+    if normal_finite(plain) and plain > 0 and -900 < gy.lo_path and gy.hi_path < 900 and abs(gy.log2()) < 600 and not any(subnormal_core(G) for G in Y):
         snap = snapshot(Y)
         Zp = ctx.lib(teneva.truncate, Y, e)
         unchanged(ctx, Y, snap, f"truncate(e={e})")
@@ -1484,12 +1533,9 @@ def extreme_placements(case):
             "split_pos": [(1, j, a), (2, j, b)], "mul": [(1, 0, a)], "mul_both": [(1, 0, a), (2, 0, a)]}[form], form
 
 
-def extreme_pair(case, ctx):
-    """The ordinary pair (Y1_0, Y2_0), the pair with the extreme cores (Y1, Y2), the total log2 shift of each operand, and whether
-    every scaling was exact (no entry of a scaled core is subnormal)."""
+def ordinary_pair(case, places):
+    """The pair (Y1_0, Y2_0) with every core at an ordinary scale (the cores at the positions of `places` of size 2^t0)."""
     d, rel = case["Y1"]["d"], case["rel"]
-    places, form = extreme_placements(case)
-    by_mul = form in ("mul", "mul_both")
     sc = dict(case["sc"])
     if case["moderate"]:
         sc["pat"], sc["total"] = "uniform", sc["total"] % 121 - 60
@@ -1520,6 +1566,15 @@ def extreme_pair(case, ctx):
     if case["zero"]:
         Y1_0 = list(Y1_0)
         Y1_0[case["zj"] % d] = np.zeros_like(Y1_0[case["zj"] % d])
+    return Y1_0, Y2_0
+
+
+def extreme_pair(case, ctx):
+    """The ordinary pair (Y1_0, Y2_0), the pair with the extreme cores (Y1, Y2), the total log2 shift of each operand, and whether
+    every scaling was exact (no entry of a scaled core is subnormal)."""
+    places, form = extreme_placements(case)
+    by_mul = form in ("mul", "mul_both")
+    Y1_0, Y2_0 = ordinary_pair(case, places)
     Y1, Y2, S, exact, done = list(Y1_0), list(Y2_0), [0, 0], True, {}
     for (o, pos, sh) in places:
         Y = Y1 if o == 1 else Y2
@@ -1566,6 +1621,24 @@ def shifted_stab(ctx, what, res, res0, S, exact, half=False):
         ctx.label("shift:bitwise")
 
 
+def same_factor_accuracy(ctx, nm, acc, acc0, s):
+    """Both operands carry the same total power-of-two factor 2^s: the relative distance `acc` is that of the ordinary pair, `acc0` -
+    every Gram term keeps its mantissa and the three exponents move together."""
+    sat = (0.0, 1e299)
+    if acc == acc0:
+        ctx.label("same_factor:bitwise")
+    elif acc in sat or acc0 in sat:
+        o = acc0 if acc in sat else acc
+        hi_side = 1e299 in (acc, acc0)
+        ctx.check(o not in sat and ((o >= 2.0 ** 499) if hi_side else (0 < o <= 2.0 ** -499)),
+                  f"{nm}: the same power-of-two factor in both operands changed the result", scaled=acc, ordinary=acc0, s=s)
+        ctx.label("same_factor:saturation_boundary")
+    else:
+        ctx.check(abs(acc - acc0) <= 8 * EPS * acc0, f"{nm}: the same power-of-two factor in both operands changed the result",
+                  scaled=acc, ordinary=acc0, s=s)
+        ctx.label("same_factor:within_8eps")
+
+
 def prop_extreme(case, ctx):
     Y1_0, Y2_0, Y1, Y2, S, exact, places, form = extreme_pair(case, ctx)
     d, op, rel = len(Y1), case["op"], case["rel"]
@@ -1603,24 +1676,375 @@ def prop_extreme(case, ctx):
         for (A, B, A0, B0, nm) in orders:
             acc, _ = run_accuracy(ctx, A, B, None, None, None)
             if S[0] == S[1] and exact:
-                # both operands carry the same total factor: the relative distance is that of the ordinary pair, every Gram term keeps
-                # its mantissa and the three exponents move together
-                acc0 = float(ctx.lib(teneva.accuracy, A0, B0))
-                sat = (0.0, 1e299)
-                if acc == acc0:
-                    ctx.label("same_factor:bitwise")
-                elif acc in sat or acc0 in sat:
-                    o = acc0 if acc in sat else acc
-                    hi_side = 1e299 in (acc, acc0)
-                    ctx.check(o not in sat and ((o >= 2.0 ** 499) if hi_side else (0 < o <= 2.0 ** -499)),
-                              f"{nm}: the same power-of-two factor in both operands changed the result", scaled=acc, ordinary=acc0, s=S[0])
-                    ctx.label("same_factor:saturation_boundary")
-                else:
-                    ctx.check(abs(acc - acc0) <= 8 * EPS * acc0, f"{nm}: the same power-of-two factor in both operands changed the result",
-                              scaled=acc, ordinary=acc0, s=S[0])
-                    ctx.label("same_factor:within_8eps")
+                same_factor_accuracy(ctx, nm, acc, float(ctx.lib(teneva.accuracy, A0, B0)), S[0])
     for Y, sn, nm in zip((Y1, Y2, Y1_0, Y2_0), snaps, ("Y1", "Y2", "ordinary Y1", "ordinary Y2")):
         unchanged(ctx, Y, sn, "extreme cores: " + nm)
+
+
+# ------------------------------------------------------------------------------------------- cores of subnormal numbers
+# A core whose LARGEST entry is a subnormal double (max modulus below 2^-1022): teneva.mul(Y, 2.**-1060) and teneva.mul(1e-320, Y) put
+# the whole factor into core 0, teneva.const(n, 1e-320) into the last core, a weight / boundary core may be scaled by 2^-1040.  Every
+# such tensor is a valid input (finite entries, total norm within 2^+-30000); the exponent of its core is p = floor(log2 max) in
+# -1074..-1023, 2^p is a (subnormal) double and G / 2^p is exact, whereas the reciprocal 2^-p is NOT a double for p <= -1024.
+# The entries of such a core carry few bits (52 + p + 1074 - 1022 of them): the tensor that is REALLY handed over is the reference, and
+# its "mantissa tensor" - the subnormal cores scaled back up by ldexp, which is exact - is the ordinary counterpart, so that the
+# shift relation is exact in that direction whatever was lost when the core was produced.
+# Oracles: no exception; core_stab itself (mantissa core with max modulus in [1, 2), Python-int exponent, G = 2^p Q bit for bit, p0
+# added, thr honoured, the shift relation); everything of run_scalar / run_norm / run_accuracy / run_orth / run_truncate against the
+# unbounded-exponent reference; the shift relations of extreme_cores / one_core / extreme_pairs against the mantissa tensor.
+
+SUBN_MAG = st.one_of(st.integers(1020, 1066), st.integers(1030, 1066), st.integers(1040, 1066), st.sampled_from([1018, 1023, 1024, 1040, 1060, 1066]))
+SUBN_FORMS = XFORMS + ["const", "const", "mul"]
+SUBN_OPS = ["core_stab", "scalar", "scalar", "norm", "accuracy", "accuracy", "orth", "orth", "truncate", "truncate"]
+SUBN_NUMBERS = [1.0, 1.0, 1.0, 1.25, 1.7, 1.9999999]            # number = this times 2^-mag for the producers teneva.mul / teneva.const
+
+
+@st.composite
+def subnormal_cases(draw, tier):
+    case = draw(extreme_cases(tier))
+    case["Y1"]["ends"] = draw(st.sampled_from(ENDS))
+    case["mag"] = [draw(SUBN_MAG), draw(SUBN_MAG)]
+    case["neg"] = [True, True]
+    case["t0"] = [draw(st.integers(-6, 6)), draw(st.integers(-6, 6)), draw(st.integers(-8, 8))]
+    # one more core, of operand 1 / 2 / both, is HUGE (times 2^512..1000): a tiny core balanced by a huge one, the total is moderate
+    case["balance"] = draw(st.sampled_from([0, 0, 0, 0, 1, 2, 3, 3]))
+    case["bmag"] = draw(XMAG)
+    case["bj"] = draw(st.integers(0, 10 ** 6))
+    case["form"] = draw(st.sampled_from(SUBN_FORMS))
+    case["op"] = draw(st.sampled_from(SUBN_OPS))
+    case["cm"] = draw(st.sampled_from(SUBN_NUMBERS))
+    case["csign"] = draw(st.sampled_from([1, 1, -1]))
+    case["p0"] = draw(st.one_of(st.none(), st.just(0), st.integers(-30000, 30000)))
+    case["k"] = draw(st.sampled_from(["first", "last", "last", "mid", "frac", "at_subnormal"]))
+    case["kf"] = draw(st.integers(0, 10 ** 6))
+    case["e"] = draw(st.sampled_from([1e-8, 1e-5, 1e-3, 0.1]))
+    return case
+
+
+def subnormal_pair(case, ctx):
+    """(Y1, Y2) with one or two cores of subnormal numbers, their mantissa tensors (M1, M2) (those cores scaled back up, exactly), the
+    per-core log2 shifts of both, the placements and the form."""
+    d = case["Y1"]["d"]
+    tensor_op = case["op"] in ("orth", "truncate", "core_stab")
+    form = case["form"]
+    if tensor_op:
+        # one tensor is looked at: the placements go to operand 1 (same position twice -> the neighbour)
+        form = {"one2": "one1", "two2": "two1", "same": "one1", "same_other": "two1", "split": "two1", "split_pos": "two1", "mul_both": "mul"}.get(form, form)
+    if form == "const":
+        places = [(1, d - 1, -case["mag"][0])]
+    else:
+        places, form = extreme_placements(dict(case, form=form))
+        if tensor_op and len(places) == 2:
+            (o, j, a), (_, k, b) = places
+            places = [(1, j, a), (1, k if k != j else (j + 1) % d, b)]
+        if case["op"] == "truncate" and d == 2:
+            places = places[:1]                                      # see ASSUMPTIONS: the even share 2^(p/d) of the result must be a normal number
+    free = [j for j in range(d) if all(j != pos for (_, pos, _) in places)]
+    bj = free[case["bj"] % len(free)] if free and case["balance"] else None
+    Y1_0, Y2_0 = ordinary_pair(case, places if bj is None else places + [(0, bj, 0)])
+    if bj is not None:
+        Y1_0, Y2_0, big = list(Y1_0), list(Y2_0), {}
+        for o, Y in ((1, Y1_0), (2, Y2_0)):
+            if case["balance"] & o:
+                G = Y[bj]
+                if id(G) not in big:
+                    big[id(G)] = (np.ldexp(G, case["bmag"]), G)      # exact: the core is of size 2^t0
+                Y[bj] = big[id(G)][0]
+    Y1, Y2, done = list(Y1_0), list(Y2_0), {}
+    number = case["csign"] * math.ldexp(case["cm"], places[0][2])
+    if form == "const":
+        # constant data of a subnormal value: cores of ones, the value sits in the last core
+        Y1 = ctx.lib(teneva.const, mode_sizes(case["Y1"]), number)
+    elif form in ("mul", "mul_both"):
+        # the library as the producer: teneva.mul(number, Y) multiplies core 0 by the (subnormal) number
+        Y1 = ctx.lib(teneva.mul, number, Y1_0)
+        if len(places) == 2:
+            Y2 = ctx.lib(teneva.mul, Y2_0, number)
+    else:
+        for (o, pos, sh) in places:
+            Y = Y1 if o == 1 else Y2
+            G = Y[pos]
+            key = (id(G), sh)
+            if key not in done:                                     # a core object shared by the two tensors stays shared
+                done[key] = (np.ldexp(G, sh), G)
+            Y[pos] = done[key][0]
+    back = {}
+    shs = [np.zeros(d, dtype=np.int64), np.zeros(d, dtype=np.int64)]
+    M = [list(Y1), list(Y2)]
+    for (o, pos, sh) in places:
+        H = (Y1, Y2)[o - 1][pos]
+        if id(H) not in back:
+            back[id(H)] = (np.ldexp(H, -sh), H)                     # scaling up by a power of two: exact
+        M[o - 1][pos] = back[id(H)][0]
+        shs[o - 1][pos] = sh
+    return Y1, Y2, M[0], M[1], shs, places, form
+
+
+def check_core_stab(ctx, G, p0, what):
+    """core_stab(G, p0): the split of one core into a mantissa core and an exponent.  Returns (Q, p - p0)."""
+    g = Guard(ctx, f"core_stab({what})")
+    snap = G.tobytes()
+    res = g.lib(teneva.core_stab, G) if p0 is None else g.lib(teneva.core_stab, G, p0)
+    p0 = 0 if p0 is None else p0
+    Q, p = check_stab_pair(g, res, "core_stab")
+    g.check(G.tobytes() == snap, "the argument was modified")
+    g.check(isinstance(Q, np.ndarray) and Q.shape == G.shape and Q.dtype == np.float64, "the scaled core is not a float array of the shape of the core",
+            got=repr(type(Q)), shape=getattr(Q, "shape", None))
+    g.check(is_pyint(p), "exponent is not a Python int", p=repr(p))
+    g.check(bool(np.all(np.isfinite(Q))), "the scaled core has non-finite entries", p=p)
+    vmax = float(np.max(np.abs(G)))
+    if vmax == 0:
+        g.check(not np.any(Q) and p == p0, "a zero core must be returned as it is, with the exponent p0", p=p, p0=p0)
+        return Q, 0
+    e, mq = p - p0, float(np.max(np.abs(Q)))
+    # p = floor(fl(log2 max|G|)), |log2| <= 1075 is rounded to 2^-42: the mantissa core has its maximum in [2^(-2^-42), 2^(1+2^-42))
+    g.check(1.0 - 2.0 ** -40 <= mq <= 2.0 * (1.0 + 2.0 ** -40), "largest modulus of the scaled core not in [1, 2)", max_modulus=mq, p=p, p0=p0, core_max=vmax)
+    g.check(e in (math.frexp(vmax)[1] - 1, math.frexp(vmax)[1]), "exponent is not floor(log2(max modulus)) (+ p0)", p=p, p0=p0, core_max=vmax)
+    # G = 2^p Q, exactly: a division by a power of two is exact unless the quotient is subnormal (entries within 2^-900 of the maximum)
+    g.check(np.ldexp(Q, e).tobytes() == G.tobytes() or bool(np.all(np.ldexp(Q, e) == G)), "2^p * Q is not the core, bit for bit", p=p, p0=p0, core_max=vmax, max_modulus=mq)
+    # the threshold: at or below it the core is returned unscaled, above it the split is the same
+    Qt, pt = g.lib(teneva.core_stab, G, p0, 2.0 * vmax)
+    g.check(is_pyint(pt) and pt == p0 and Qt.shape == G.shape and Qt.tobytes() == G.tobytes(), "thr above the largest modulus: the core must be returned unscaled with the exponent p0", p=pt, p0=p0)
+    Qs, ps = g.lib(teneva.core_stab, G, p0, 0.5 * vmax)
+    g.check(ps == p and Qs.tobytes() == Q.tobytes(), "thr below the largest modulus: the split differs from the one without thr", p=ps, p_default=p)
+    return Q, e
+
+
+def prop_subnormal(case, ctx):
+    Y1, Y2, M1, M2, shs, places, form = subnormal_pair(case, ctx)
+    d, op, rel = len(Y1), case["op"], case["rel"]
+    S = [int(np.sum(shs[0])), int(np.sum(shs[1]))]
+    placed = [((Y1, Y2)[o - 1][pos], (M1, M2)[o - 1][pos], sh, o, pos) for (o, pos, sh) in places]
+    depth = [math.frexp(float(np.max(np.abs(H))))[1] - 1 for (H, _, _, _, _) in placed if np.any(H)]
+    ctx.label("op:" + op, "form:" + form, "rel:" + rel, f"d={d}" if d in (2, 3, 4, 50, 300, 1000, 3000) else "d=other",
+              "others:O(1)" if case["moderate"] else "others:any_total", f"subnormal_cores={sum(1 for x in depth if x < -1022)}")
+    for x in depth:
+        ctx.label("core_max:" + ("normal" if x >= -1022 else "2^-1023" if x == -1023 else "2^-1024..-1040" if x >= -1040 else
+                                 "2^-1041..-1060" if x >= -1060 else "2^-1061..-1074"))
+    if len(depth) < len(placed):
+        ctx.label("core_flushed_to_zero")
+    for (H, B, sh, o, pos) in placed:
+        ctx.label(f"operand{o}:" + ("first" if pos == 0 else "last" if pos == d - 1 else "interior"))
+    if case["zero"]:
+        ctx.label("zero_core_in_Y1")
+    if any(float(np.max(np.abs(G))) > 2.0 ** 500 for G in Y1 + Y2):
+        ctx.label("balanced_by_a_huge_core")
+    ctx.nontrivial(any(x < -1022 for x in depth))                  # the squares of the entries of such a core are all zero
+    snaps = snapshot(Y1), snapshot(Y2), snapshot(M1), snapshot(M2)
+    for (H, B, sh, _, _) in placed:                                 # harness: the mantissa tensor scaled down is the tensor under test, exactly
+        ctx.check(bool(np.all(np.isfinite(B))) and np.ldexp(B, sh).tobytes() == H.tobytes(), "harness: scaling a subnormal core up is exact")
+    if op == "core_stab":
+        cores = [(H, B, sh, f"core {pos} of Y{o}, max modulus 2^{math.frexp(float(np.max(np.abs(H))))[1] - 1 if np.any(H) else '-inf'}") for (H, B, sh, o, pos) in placed]
+        j = case["pj"] % d
+        cores.append((Y1[j], None, 0, f"core {j} of Y1"))
+        ctx.inner(len(cores))
+        for (H, B, sh, what) in cores:
+            Q, e = check_core_stab(ctx, H, case["p0"], what)
+            if B is None or not np.any(H):
+                continue
+            Q0, e0 = check_core_stab(ctx, B, case["p0"], what + ", scaled back up")
+            if near_pow2(B):
+                ctx.check(abs(e - sh - e0) <= 1 and np.ldexp(Q, e - sh - e0).tobytes() == Q0.tobytes(), f"core_stab({what}): scaling the core by 2^s changed the denoted core",
+                          s=sh, exponent=e, exponent_scaled_back=e0)
+                ctx.label("shift:same_value")
+            else:
+                ctx.check(e == e0 + sh and Q.tobytes() == Q0.tobytes(), f"core_stab({what}): scaling the core by 2^s must shift the exponent by s and keep the scaled core "
+                          "bit-identical", s=sh, exponent=e, exponent_scaled_back=e0)
+                ctx.label("shift:bitwise")
+    elif op == "scalar":
+        v, p, ref, (rv, rp), _, _ = run_scalar(ctx, Y1, Y2, None, None, None)
+        g = Guard(ctx, "mul_scalar(Y2, Y1, use_stab=True)")
+        w, q = check_stab_pair(g, g.lib(teneva.mul_scalar, Y2, Y1, use_stab=True), "mul_scalar")
+        check_scalar_value(g, ctx, w, q, ref, rv, rp, "swapped arguments")
+        agree_stab(ctx, "mul_scalar(Y1, Y2) vs mul_scalar(Y2, Y1), subnormal cores", (v, p), (w, q), None if ref.zero else ref.tol)
+        shifted_stab(ctx, "mul_scalar(Y1, Y2, use_stab=True)", (v, p), ctx.lib(teneva.mul_scalar, M1, M2, use_stab=True), S[0] + S[1], True)
+        shifted_stab(ctx, "mul_scalar(Y2, Y1, use_stab=True)", (w, q), ctx.lib(teneva.mul_scalar, M2, M1, use_stab=True), S[0] + S[1], True)
+    elif op == "norm":
+        for (Y, Y0, St, nm) in ((Y1, M1, S[0], "Y1"), (Y2, M2, S[1], "Y2")):
+            z, q, _, _, _ = run_norm(ctx, Y, None, None)
+            shifted_stab(ctx, f"norm({nm}, use_stab=True)", (z, q), ctx.lib(teneva.norm, Y0, use_stab=True), St, True, half=True)
+    elif op == "accuracy":
+        for (A, B, A0, B0, nm) in ((Y1, Y2, M1, M2, "accuracy(Y1, Y2)"), (Y2, Y1, M2, M1, "accuracy(Y2, Y1)")):
+            if Gram(B, B).zero:                                     # the reference tensor is exactly zero: the documented return is undecided
+                ctx.label("accuracy:zero_reference_skipped")
+                continue
+            acc, _ = run_accuracy(ctx, A, B, None, None, None)
+            if S[0] == S[1]:
+                same_factor_accuracy(ctx, nm, acc, float(ctx.lib(teneva.accuracy, A0, B0)), S[0])
+    else:
+        Y, Y0, sh1 = Y1, M1, shs[0]
+        state = scaling_state(Y, Y0, sh1)
+        ctx.check(state != "lossy", "harness: the mantissa tensor is an exact rescaling")
+        ctx.label("scaling:" + state)
+        pos = [int(j) for j in np.nonzero(sh1)[0]]
+        what = f"cores {pos} times 2^{[int(sh1[j]) for j in pos]}"
+        if op == "orth":
+            kmain = {"first": 0, "last": d - 1, "mid": d // 2, "frac": case["kf"] % d, "at_subnormal": pos[case["kf"] % len(pos)]}[case["k"]]
+            pivots = list(range(d)) if d <= 4 else [kmain]
+            ctx.inner(len(pivots))
+            for k in pivots:
+                ctx.label("pivot:" + ("first" if k == 0 else "last" if k == d - 1 else "interior"), "pivot_subnormal" if k in pos else "pivot_ordinary")
+                Z, p, gy = run_orth(ctx, Y, k)
+                if Z is None:
+                    continue
+                orth_shift(ctx, f"orthogonalize(k={k}, use_stab=True), {what}", Y0, k, S[0], state, Z, p)
+        else:
+            e = case["e"]
+            truncate_shift(ctx, f"truncate(e={e}, use_stab=True), {what}", Y, Y0, e, S[0], state)
+    for Y, sn, nm in zip((Y1, Y2, M1, M2), snaps, ("Y1", "Y2", "mantissa tensor of Y1", "mantissa tensor of Y2")):
+        unchanged(ctx, Y, sn, "subnormal cores: " + nm)
+
+
+# ------------------------------------------------------------------------------------------- truncate(orth=False, use_stab=True)
+# The documented spelling for a tensor the caller has orthogonalised to the last core himself: no sweep is performed and e is the ABSOLUTE
+# Frobenius threshold of every core SVD.  There is nothing to rescale, so the stabilisation flag must not change the meaning of e: whenever
+# the plain call is representable the stabilised one returns the same ranks and the same tensor up to rounding (property text), and the
+# result lies within sqrt(d-1) e of the input.  Tensors whose norm is far from 1 (2^+-40, up to 2^+-480) - there an absolute and a
+# relative reading of e differ by that factor - with e placed BETWEEN singular values:
+# family spectrum: every unfolding has the prescribed singular values 2^L m_a (strong m in [.5, 1], weak ones w [.5, 1], w = 1e-2..1e-5):
+#   superdiagonal tensor sum_a m_a q_a^(0) x ... x q_a^(d-1) with orthonormal q_a^(k), written with left-orthogonal cores, the scale in the
+#   last core, a random orthogonal gauge between neighbouring cores; e = 4 sqrt(R) w 2^L (between: the weak part goes, a factor 4 to the
+#   tail of the weak values, a factor >= 3 to the smallest strong one) / w 2^L / 16 (below everything) / 4 sqrt(R) 2^L (above everything);
+# family generic: the module's truncate tensors (a sum of two random tensors, the second one 2^-q smaller) with total scale 2^L,
+#   orthogonalised by teneva.orthogonalize(Y, d-1), e = c ||Y||, c in 1e-6..0.3 (>= 1e-6: the eigh floor of the rank decision is 1e-8).
+
+OF_SCALES = st.one_of(st.sampled_from([40, -40, 40, -40, 0, 1, -1, 100, -100, 300, -300, 450, -450]), st.integers(-450, 450), st.integers(-60, 60))
+OF_PATTERNS = ["uniform", "uniform", "left", "right", "single", "alt", "alt_neg"]      # every partial product stays representable
+
+
+@st.composite
+def orth_false_cases(draw, tier):
+    fam = draw(st.sampled_from(["spectrum", "spectrum", "spectrum", "generic", "generic"]))
+    case = {"fam": fam, "L": draw(OF_SCALES), "r": draw(st.sampled_from([None, None, None, None, 1e12, 3, 2, 1])),
+            "seed": draw(st.integers(0, 2 ** 31 - 1))}
+    if fam == "spectrum":
+        a = draw(st.integers(1, 3))
+        b = min(draw(st.sampled_from([0, 1, 1, 2, 2])), 4 - a)
+        case.update(d=draw(st.sampled_from([2, 3, 4, 5, 6, 8, 12] if tier == "quick" else [2, 3, 4, 5, 6, 8, 12, 30, 100])), a=a, b=b,
+                    n=a + b + draw(st.integers(0, 2)), w=draw(st.sampled_from([2, 3, 4, 5])),
+                    where=draw(st.sampled_from(["between", "between", "between", "below", "above"])), gauge=draw(st.booleans()))
+    else:
+        d = draw(st.one_of(st.sampled_from([2, 3, 4, 6, 10, 30] if tier == "quick" else [2, 3, 4, 6, 10, 30, 50]), st.integers(2, 12)))
+        Ya = draw(tensor_specs(d))
+        Yb = draw(tensor_specs(d))
+        Yb["nm"] = Ya["nm"]
+        Ya["rp"] = [min(2, x) for x in Ya["rp"]]
+        Yb["rp"] = [min(2, x) for x in Yb["rp"]]
+        case.update(Ya=Ya, Yb=Yb, sum=draw(st.integers(0, 3)) > 0, q=draw(st.integers(0, 30)),
+                    c=draw(st.sampled_from([1e-6, 1e-4, 1e-2, 0.1, 0.3])),
+                    sc={"pat": draw(st.sampled_from(OF_PATTERNS)), "total": case["L"], "amp": draw(st.integers(0, 200))})
+    return case
+
+
+def spectrum_tensor(case):
+    """Left-orthogonal cores of sum_a 2^L m_a q_a^(0) x ... x q_a^(d-1): every unfolding has the singular values 2^L m_a.  Returns
+    (cores, m)."""
+    d, n, a, b, L = case["d"], case["n"], case["a"], case["b"], case["L"]
+    R = a + b
+    rng = np.random.default_rng(case["seed"])
+    m = np.concatenate([rng.uniform(0.5, 1.0, size=a), 10.0 ** -case["w"] * rng.uniform(0.5, 1.0, size=b)])
+    Q = [np.linalg.qr(rng.normal(size=(n, n)))[0][:, :R] for _ in range(d)]
+    Y = []
+    for k in range(d):
+        if k == 0:
+            G = Q[0][None, :, :].copy()                                         # (1, n, R)
+        else:
+            G = np.zeros((R, n, R))
+            for al in range(R):
+                G[al, :, al] = Q[k][:, al]
+        if k == d - 1:
+            G = (G @ m)[:, :, None]                                             # (R, n, 1): column al of Q times m_al
+            if d == 1:
+                G = G.reshape(1, n, 1)
+        Y.append(G)
+    if d >= 2 and Y[0].shape[2] != R:
+        raise AssertionError
+    if case["gauge"]:
+        for k in range(d - 1):
+            W = np.linalg.qr(rng.normal(size=(R, R)))[0]
+            Y[k] = np.einsum('aib,bc->aic', Y[k], W)
+            Y[k + 1] = np.einsum('cb,bid->cid', W.T, Y[k + 1])
+    Y[-1] = np.ldexp(Y[-1], L)
+    return Y, m
+
+
+def prop_orth_false(case, ctx):
+    fam, L, r = case["fam"], case["L"], case["r"]
+    if fam == "spectrum":
+        Y, m = spectrum_tensor(case)
+        d, R, w = len(Y), len(m), 10.0 ** -case["w"]
+        where = case["where"] if case["b"] else ("below" if case["where"] == "between" else case["where"])
+        c = {"between": 4 * math.sqrt(R) * w, "below": w / 16, "above": 4 * math.sqrt(R)}[where]
+        e_abs = math.ldexp(c, L)
+        ctx.label("e:" + where, f"strong={case['a']}", f"weak={case['b']}", "gauge" if case["gauge"] else "no_gauge")
+        for k in range(d - 1):                                                 # harness: the cores left of the last one are left-orthogonal
+            df = oracle.ortho_defect_left(Y[k])
+            ctx.check(df <= 64 * EPS * max(Y[k].shape), "harness: spectrum tensor is not orthogonalised to the last core", core=k, defect=df)
+    else:
+        d = case["Ya"]["d"]
+        s = scales(d, case["sc"], LO, HI)
+        Ya = build(case["Ya"], s)
+        if case["sum"]:
+            Yb = build(case["Yb"], s)
+            Yb[0] = Yb[0] * 2.0 ** -case["q"]
+            Ya = block_diff(Ya, Yb)
+        Y = ctx.lib(teneva.orthogonalize, Ya, d - 1)                            # the caller orthogonalises (plain sweep, representable)
+        nrm = float(np.linalg.norm(Y[-1]))
+        if oracle.wellformed(Y, oracle.shape_of(Ya)) is not None or not (2.0 ** -500 < nrm < 2.0 ** 500):
+            ctx.label("plain_sweep_not_representable")
+            return
+        e_abs = case["c"] * nrm
+        ctx.label(f"c={case['c']}", "pat:" + case["sc"]["pat"], "sum" if case["sum"] else "single")
+    d = len(Y)
+    n = oracle.shape_of(Y)
+    ctx.label("fam:" + fam, f"d={d}" if d in (2, 3, 4, 5, 6, 8, 10, 12, 30) else "d=other", f"r={r}",
+              "scale:" + ("2^+-40" if abs(L) == 40 else "O(1)" if abs(L) <= 3 else "moderate" if abs(L) < 40 else "large" if abs(L) <= 200 else "extreme"))
+    ctx.nontrivial(abs(L) >= 20)                                               # an absolute and a relative reading of e differ by 2^L
+    kw = {} if r is None else {"r": r}
+    what = f"truncate(e={e_abs!r}, orth=False, use_stab=True{'' if r is None else ', r=' + repr(r)})"
+    g = Guard(ctx, what)
+    snap = snapshot(Y)
+    Ts = g.lib(teneva.truncate, Y, e_abs, orth=False, use_stab=True, **kw)
+    unchanged(ctx, Y, snap, what)
+    Tp = ctx.lib(teneva.truncate, Y, e_abs, orth=False, **kw)
+    unchanged(ctx, Y, snap, "truncate(orth=False)")
+    why = oracle.wellformed(Ts, n)
+    g.check(why is None, f"result not well-formed / finite / same shape: {why}")
+    rin, rs = oracle.ranks_of(Y), oracle.ranks_of(Ts)
+    g.check(all(x <= y for x, y in zip(rs, rin)), "a rank increased", rin=rin[:12], rout=rs[:12])
+    if r is not None:
+        g.check(max(rs) <= max(1, int(r)), "a rank exceeds r", rout=rs[:12], r=r)
+    if rs != rin:
+        ctx.label("rank_reduced")
+    if max(rs) > 1 and rs != rin:
+        ctx.label("rank_reduced_partly")
+    if fam == "spectrum" and r is None:
+        ctx.label("ranks_as_predicted" if rs[1:-1] == [{"between": case["a"], "below": R, "above": 1}[where]] * (d - 1) else "ranks_not_as_predicted")
+    gy = Gram(Y, Y)
+    ctx.check(not gy.zero, "harness: the tensor is not zero")
+    R = max(rin)
+    # the requested (absolute) accuracy: every step cuts a tail of Frobenius norm <= e from a tensor in orthogonal form
+    if r is None or r >= R:
+        r2, t2, a_, b_ = rel_dist2(Ts, 0, Y, gy)
+        me, ee = math.frexp(e_abs)
+        e_rel2 = pow2(me * me / gy.m, 2 * ee - gy.p)                           # e^2 / ||Y||^2, integer exponent arithmetic
+        bound = (d - 1) * e_rel2 * (1 + 1e-3) ** 2 + 16 * (d - 1) * R * EPS + 2 * t2
+        g.check(r2 <= bound, "result is farther from the input than sqrt(d-1) e (relative distance^2 from three reference Gram values)",
+                dist2=r2, bound=bound, e_rel2=e_rel2, rounding=t2, ranks_in=rin[:10], ranks_out=rs[:10])
+        ctx.label("distance_asserted")
+    # stabilised = plain: the plain call is representable (norm within 2^+-500, e^2 and the squares of the last core are normal numbers)
+    whyp = oracle.wellformed(Tp, n)
+    ctx.check(whyp is None, f"truncate(orth=False): result not well-formed / finite: {whyp}")
+    rp = oracle.ranks_of(Tp)
+    g.check(rs == rp, "the ranks differ from those of the plain call although everything is representable (e is an absolute threshold "
+            "between singular values for both)", ranks_stab=rs[:12], ranks_plain=rp[:12], ranks_in=rin[:12])
+    if bitwise_same(Ts, Tp):
+        ctx.label("agree:bitwise")
+    else:
+        r2p, t2p, _, _ = rel_dist2(Ts, 0, Tp)
+        g.check(r2p <= 2 * t2p + 64 * (d - 1) * R * EPS, "differs from the plain result beyond rounding although everything is representable", dist2=r2p,
+                bound=2 * t2p + 64 * (d - 1) * R * EPS)
+        ctx.label("agree:within_bound")
 
 
 # ------------------------------------------------------------------------------------------- small cores (underflow side)
@@ -1653,4 +2077,6 @@ SUBCHECKS = [
     Sub("one_core", prop_one_core, strategy=one_core_cases, quick=16, thorough=300),
     Sub("extreme_pairs", prop_extreme_pairs, strategy=extreme_pair_cases, quick=24, thorough=400),
     Sub("extreme_cores", prop_extreme, strategy=extreme_cases, quick=60, thorough=600),
+    Sub("subnormal", prop_subnormal, strategy=subnormal_cases, quick=40, thorough=500),
+    Sub("orth_false", prop_orth_false, strategy=orth_false_cases, quick=30, thorough=400),
 ]
